@@ -194,6 +194,10 @@ fn send_op(job: &Job, sc: &Sc, idx: usize, op: Op, sender: u8, hook_count: &Arc<
 		Op::UnsetHook => job.unset_spawn_hook(),
 		Op::SetErrH => job.set_error_handler(|e| simchild::note("errh", 0, 0, e.get().map_or("?".to_string(), |e| e.to_string()))),
 		Op::UnsetErrH => job.unset_error_handler(),
+		Op::SetAsyncErrH => job.set_async_error_handler(|e| {
+			simchild::note("errh", 0, 0, e.get().map_or("?".to_string(), |e| e.to_string()));
+			Box::new(async {})
+		}),
 	}
 }
 
